@@ -58,6 +58,33 @@ def akrun_exe(sanitize=True):
     return exe
 
 
+def link_driver(driver_text, tag, sanitize=True):
+    """compile a C++ driver and link it with the whole natively built library (objects shared with akrun) -> executable path (cached)"""
+    os.makedirs(build.CACHE, exist_ok=True)
+    flags = FLAGS + (SAN if sanitize else [])
+    srcs = lib_sources()
+    h = hashlib.sha256(driver_text.encode()).hexdigest()[:12]
+    exe = os.path.join(build.CACHE, 'drvf_%s_%s_%s' % (tag, h, build._key(srcs, flags)))
+    if os.path.exists(exe):
+        return exe
+    with ThreadPoolExecutor(16) as ex:
+        objs = list(ex.map(lambda s: _obj(s, flags), srcs))
+    d = tempfile.mkdtemp(prefix='vfdrvf', dir=build.CACHE)
+    try:
+        dp = os.path.join(d, 'driver.cpp')
+        with open(dp, 'w') as f:
+            f.write(driver_text)
+        tmp = exe + '.%d.tmp' % os.getpid()
+        r = subprocess.run([build.CXX] + flags + build.DEFS + build._inc() + ['-I' + STANDIN, dp] + objs + ['-o', tmp, '-lpthread'], capture_output=True, text=True)
+        if r.returncode != 0:
+            raise RuntimeError('driver link failed:\n' + r.stderr[-3000:])
+        os.replace(tmp, exe)
+    finally:
+        import shutil
+        shutil.rmtree(d, ignore_errors=True)
+    return exe
+
+
 def akrun(program, timeout=60, sanitize=True):
     """run a stack program -> (kind, payload): ('OK', python value) | ('ERR', message) | ('INVALID', text) | ('CRASH', log) | ('TIMEOUT', '')"""
     exe = akrun_exe(sanitize)
